@@ -9,6 +9,7 @@ pub mod c05;
 pub mod c06;
 pub mod c07;
 pub mod c08;
+pub mod c09;
 
 pub fn dispatch(args: &Args, rep: &mut Report) {
     match args.prop.as_str() {
@@ -20,6 +21,7 @@ pub fn dispatch(args: &Args, rep: &mut Report) {
         "C06" => c06::run(args, rep),
         "C07" => c07::run(args, rep),
         "C08" => c08::run(args, rep),
+        "C09" => c09::run(args, rep),
         p => {
             eprintln!("unknown property {p}");
             std::process::exit(2);
